@@ -6,7 +6,8 @@ CONSTANTS
   Configs = {1, 12}
   MaxList = 2
   GenMode = FALSE
-  SetAll = FALSE
+  Wide = FALSE
+  DEV_SortedIdLists = FALSE
   DEV_SpellingInEq = FALSE
 INVARIANT LawValid
 INVARIANT LawNormal
@@ -18,4 +19,5 @@ INVARIANT LawSetPrint
 INVARIANT LawSolGrammar
 INVARIANT LawSolParse
 INVARIANT LawSolReprint
+INVARIANT LawSolAligned
 PROPERTY LawSpelling
